@@ -235,7 +235,7 @@ pub fn c17(tier: &str) -> i32 {
             for n in 1..=3u16 {
                 for decay in [1.0, 0.5] {
                     for scale in [0.5, 10.0] {
-                        for (demand, ratio) in [(100.0, 0.0), (100.0, 1.0), (0.6 * n as f64, 0.0), (0.6 * n as f64, 1.0)] {
+                        for (demand, ratio) in [(100.0, 0.0), (100.0, 1.0), (0.6 * n as f64, 0.0), (0.6 * n as f64, 1.0), (100.0, 0.5), (5.0 * n as f64, 0.5)] {
                             if !t && (multi && tick == 2 && n == 2) {
                                 continue;
                             }
@@ -348,7 +348,7 @@ pub fn c17(tier: &str) -> i32 {
     out.set(
         "bounds",
         json!({"moves_per_round_in_ticks": [-2, -1, -0.5, 0, 0.5, 1, 2], "max_path_length": max_len, "decay": [1.0, 0.5], "scale": [0.5, 10.0],
-               "demand": ["100 (saturated)", "0.6*n (unsaturated)"], "order_ratio": [0, 1], "traders": "1..3", "ticks": [1, 2], "multi_asset": [false, true],
+               "demand": ["100 (saturated)", "0.6*n (unsaturated)"], "order_ratio": [0, 0.5, 1], "traders": "1..3", "ticks": [1, 2], "multi_asset": [false, true],
                "last_round_answers": "default stream, all-zero, all-ones, mid; with ratio 0 every combination of {0, p-1e-9, p+1e-9, 1-1e-12} per trader"}),
     );
     out.push("samples", json!({"mid_levels_in_half_ticks": all_paths[7], "params": format!("{:?}", params[3])}));
